@@ -16,6 +16,10 @@ VERIF = os.path.dirname(os.path.dirname(os.path.abspath(__file__)))
 
 def main():
     args = [a for a in sys.argv[1:] if not a.startswith("--")]
+    demo = None
+    if "--demo" in sys.argv:
+        demo = os.path.abspath(sys.argv[sys.argv.index("--demo") + 1])
+        args.remove(sys.argv[sys.argv.index("--demo") + 1])
     tier = "quick"
     if "--tier" in sys.argv:
         tier = sys.argv[sys.argv.index("--tier") + 1]
@@ -37,6 +41,18 @@ def main():
             if t.returncode != 0:
                 print("SUITE-CATCHES-IT (not a valid mutant)")
                 return 4
+        if demo:
+            clean = tempfile.mkdtemp(prefix="crverif_clean_")
+            try:
+                subprocess.run("git -C /repo archive HEAD | tar -x -C %s" % clean, shell=True, check=True)
+                cmd = ["/venv/bin/python", "-m", "pytest", "-q", "-p", "no:cacheprovider", demo] if os.path.basename(demo).startswith("test_") else ["/venv/bin/python", demo]
+                for where, label in ((tmp, "with change"), (clean, "without change")):
+                    shutil.copy(demo, where)
+                    d = subprocess.run(cmd[:-1] + [os.path.join(where, os.path.basename(demo))], cwd=where, env=env, capture_output=True, text=True, timeout=600)
+                    print("demo %s: exit=%d" % (label, d.returncode))
+                    os.remove(os.path.join(where, os.path.basename(demo)))
+            finally:
+                shutil.rmtree(clean, ignore_errors=True)
         env["CR_VERIF_REPO"] = tmp
         env["CR_VERIF_EVIDENCE_DIR"] = os.path.join(tmp, "_evidence")
         caught = []
